@@ -16,8 +16,9 @@ def main():
     mods = {m.name: importlib.import_module("vf.props." + m.name) for m in pkgutil.iter_modules(P.__path__)}
     checks = []
     na = []
+    ready = set(open(os.path.join(core.ROOT, "READY")).read().split())
     for pid in ids:
-        mod = mods.get(pid)
+        mod = mods.get(pid) if pid in ready else None
         if mod is None or getattr(mod, "META", {}).get("disabled"):
             reason = NOT_APPLICABLE.get(pid) or (getattr(mod, "META", {}).get("disabled") if mod else None) or \
                 "check not built yet in this round (planned in DESIGN.md section 5); not claimed"
